@@ -41,9 +41,10 @@ def worlds(tier):
                    "fixed_demand": True})
     ws.append({"name": "EDF-enforce-2tasks-hetero", "policy": "EDF", "n": 2, "nstrat": 1, "layout": "hetero", "extra": False, "split": 6, "weight": 20, "units": ["US", "US"], "enforce": True})
     if tier == "thorough":
+        # (with symbolic demands the three 3-task worlds took 10.6 million paths / 70+ minutes: demands are fixed here, everything else symbolic)
         for pol in ("EDF", "FIFO", "LSF"):
             ws.append({"name": f"{pol}-3tasks-2strategies-hetero-running+scheduled", "policy": pol, "n": 3, "nstrat": 2, "layout": "hetero", "extra": True, "split": 9, "weight": 600,
-                       "units": ["US", "MS", "US"]})
+                       "units": ["US", "MS", "US"], "fixed_demand": True})
     return ws
 
 
